@@ -16,6 +16,7 @@ import (
 
 	"mellium.im/xmlstream"
 	"mellium.im/xmpp"
+	"mellium.im/xmpp/jid"
 	"mellium.im/xmpp/mux"
 	"mellium.im/xmpp/stanza"
 	"mellium.im/xmpp/stream"
@@ -67,9 +68,13 @@ type tcase struct {
 	outstanding bool
 	s2s         bool
 	useMux      bool
-	reg     map[string]bool // "type|space|local" registered in the mux
-	elems   []elem
-	closeIt bool
+	// the session was created for the address example.org and was assigned
+	// test@example.net during negotiation (as resource binding does): stanzas
+	// from example.org are then from somebody else
+	addrChanged bool
+	reg         map[string]bool // "type|space|local" registered in the mux
+	elems       []elem
+	closeIt     bool
 }
 
 func key(typ string, n xml.Name) string { return typ + "|" + n.Space + "|" + n.Local }
@@ -139,6 +144,7 @@ func genWrites(t *rapid.T, e elem, ns string) []write {
 
 func genCase(t *rapid.T) tcase {
 	tc := tcase{s2s: rapid.Bool().Draw(t, "s2s"), useMux: rapid.Bool().Draw(t, "mux"), reg: map[string]bool{}}
+	tc.addrChanged = rapid.IntRange(0, 2).Draw(t, "addrChanged") == 0
 	ns := stanza.NSClient
 	if tc.s2s {
 		ns = stanza.NSServer
@@ -252,7 +258,7 @@ func (tc tcase) ns() string {
 
 func (tc tcase) String() string {
 	var sb strings.Builder
-	fmt.Fprintf(&sb, "s2s=%v mux=%v own-request-%q-outstanding=%v", tc.s2s, tc.useMux, outstandingID, tc.outstanding)
+	fmt.Fprintf(&sb, "s2s=%v mux=%v own-request-%q-outstanding=%v address-assigned-during-negotiation(created as example.org)=%v", tc.s2s, tc.useMux, outstandingID, tc.outstanding, tc.addrChanged)
 	if tc.useMux {
 		var ks []string
 		for k := range tc.reg {
@@ -468,6 +474,10 @@ func check(t interface {
 	if tc.s2s {
 		opts.State |= xmpp.S2S
 	}
+	if tc.addrChanged {
+		opts.Local = jid.MustParse("test@example.net")
+		opts.Origin = jid.MustParse("example.org")
+	}
 	ns := tc.ns()
 	conn := wire.NewConn()
 	conn.FeedString(opts.Header())
@@ -537,7 +547,9 @@ func check(t interface {
 			}
 		}()
 		// the request must be registered and on the wire before input is served
-		conn.WaitOutput(func(b []byte) bool { return bytes.Contains(b, []byte(outstandingID)) && bytes.HasSuffix(bytes.TrimSpace(b), []byte("</iq>")) }, 5*time.Second)
+		conn.WaitOutput(func(b []byte) bool {
+			return bytes.Contains(b, []byte(outstandingID)) && bytes.HasSuffix(bytes.TrimSpace(b), []byte("</iq>"))
+		}, 5*time.Second)
 	} else {
 		close(odone)
 	}
@@ -677,6 +689,9 @@ func classify(tc tcase) (bool, []string) {
 	}
 	if tc.s2s {
 		classes = append(classes, "s2s")
+	}
+	if tc.addrChanged {
+		classes = append(classes, "address-assigned-during-negotiation")
 	}
 	if tc.outstanding {
 		classes = append(classes, "own-request-outstanding")
